@@ -174,7 +174,10 @@ PcmCase(t) ==
                     LET q == quote[AssetSeq[n]].ask IN IF q = 0 THEN << 0, 0 >> ELSE << q, 1000 >>],
        kind  |-> Cfg.kind, eq |-> << PfEquity(PID), 1000 >>, par |-> Cfg.par,
        fee   |-> IF fee.kind = "zero" THEN << 0, 1 >> ELSE << fee.c + fee.t, 1000 >>,
-       exact |-> TRUE]
+       exact |-> TRUE,
+       \* the session's optional risk model (a user model that vetoes the assets of rset: weight zero, or key removed)
+       risk  |-> IF "risk" \in DOMAIN Cfg THEN Cfg.risk ELSE "none",
+       rset  |-> IF "rset" \in DOMAIN Cfg THEN { AssetNo(a) : a \in Cfg.rset } ELSE {}]
 
 SRebalance ==
   /\ pc = "rebalance"
@@ -264,7 +267,8 @@ C19_Membership ==
     /\ \A i \in 1..Len(allocs) : \A a \in DOMAIN allocs[i].w :
          allocs[i].w[a] # 0 => EntryOf(a) # -1 /\ EntryOf(a) <= allocs[i].t
     /\ \A i \in 1..Len(allocs) : \A a \in Assets :
-         (EntryOf(a) # -1 /\ EntryOf(a) <= allocs[i].t) => (a \in DOMAIN allocs[i].w /\ allocs[i].w[a] # 0)
+         (EntryOf(a) # -1 /\ EntryOf(a) <= allocs[i].t) =>
+             (a \in DOMAIN allocs[i].w /\ (allocs[i].w[a] # 0 \/ ("rset" \in DOMAIN Cfg /\ a \in Cfg.rset)))   \* unless the risk model vetoes it
     /\ \A i \in 1..Len(flog) : EntryOf(flog[i].asset) # -1 /\ EntryOf(flog[i].asset) <= flog[i].t
     /\ \A a \in DOMAIN pos[PID] : EntryOf(a) # -1 /\ EntryOf(a) <= now
 
